@@ -282,26 +282,23 @@ operator/ (mpz_class v1, mpz_class v2)
   if (v2.m_u == 0)
     int_error (describe_div_0 (v1, v2, '/'));
 
-  bool neg = false;
-  if (v1 < 0)
-    {
-      v1 = -v1;
-      neg = true;
-    }
-  if (v2 < 0)
-    {
-      v2 = -v2;
-      neg = ! neg;
-    }
+  // Divide magnitudes, then round towards negative infinity.
+  bool neg1 = v1 < 0;
+  bool neg2 = v2 < 0;
+  uint64_t a = neg1 ? (-v1).m_u : v1.m_u;
+  uint64_t b = neg2 ? (-v2).m_u : v2.m_u;
 
-  if (neg)
-    v1 = v1 + (v2 - 1);
+  uint64_t q = a / b;
+  if (neg1 == neg2)
+    return mpz_class {q, signedness::unsign};
 
-  mpz_class ret {v1.m_u / v2.m_u, signedness::unsign};
-  if (neg)
-    ret = -ret;
-
-  return ret;
+  // Q can't overflow here: it could only be UINT64_MAX if B was 1, but
+  // then the remainder would be zero.
+  if (a % b != 0)
+    ++q;
+  if (q > (uint64_t) INT64_MAX + 1)
+    int_error (describe_overflow (v1, v2, '/'));
+  return mpz_class {-q, signedness::sign};
 }
 
 mpz_class
@@ -310,6 +307,19 @@ operator% (mpz_class v1, mpz_class v2)
   if (v2.m_u == 0)
     int_error (describe_div_0 (v1, v2, '%'));
 
-  mpz_class d = v1 / v2;
-  return v1 - v2 * d;
+  // The result has the sign of the divisor and magnitude smaller than
+  // that of the divisor, so it is always representable.
+  bool neg1 = v1 < 0;
+  bool neg2 = v2 < 0;
+  uint64_t a = neg1 ? (-v1).m_u : v1.m_u;
+  uint64_t b = neg2 ? (-v2).m_u : v2.m_u;
+
+  uint64_t r = a % b;
+  if (neg1 != neg2 && r != 0)
+    r = b - r;
+
+  if (neg2)
+    return mpz_class {-r, signedness::sign};
+  else
+    return mpz_class {r, signedness::unsign};
 }
